@@ -5,14 +5,23 @@
 //! canonical output as ocaml/mani/mx_mani.ml, minus the model-only items `tr[..]`/`sw[..]`):
 //!   case ::= "ratio=" INT ";" op (";" op)*
 //!   op   ::= open | rollover | close | verify | dump | cut INT | apply RAW* | sweep .. (ignored)
-//!          | iter HEX | readfile HEX | lockprobe
+//!          | iter HEX | readfile HEX | lockprobe | selfopen | foreign OP (/ OP)*
+//!   selfopen: a SECOND Manifest::open of the same root inside this process (fail_if_locked):
+//!             `self:<error class>` or `self:opened`;  foreign: ANOTHER PROCESS opens the root
+//!             (fail_if_locked) and, if it gets in, runs the ops: `foreign:locked` / `foreign:ok`
 //!   RAW  ::= a:HEX | r:HEX | i:CODEPOINT:HEX
 //!   a line "@img DIR RATIO" re-opens an existing directory image: prints `RES | vf[..] | RES | vf[..]`
 //!   (open, read the state, drop, Manifest::verify; and all of that once more) — the image is
 //!   modified by the opens.
 //! `c13 --exec DIR` — runs ONE case (stdin) inside DIR (kept), writing "@@OP <i> <result>\n" with a
 //!   single write(2) to stdout after every op (the Python side runs this under strace).
+//!   a line "@lock EV EV .." drives the lock-file protocol itself (utilz::lockfile::Lockfile::lock on
+//!   one file) in TWO real processes, sequentially: EV = <pid 0|1> 'l' (try to lock: `got`/`none`)
+//!   or <pid> 'u' (drop that process's newest handle: `ok`/`nohandle`); prints the results.
 //! `c13 --trylock DIR` — prints "locked" or "free" (Manifest::open with --fail-if-locked).
+//! `c13 --foreign DIR RATIO` — Manifest::open(fail_if_locked); on success runs the ops of stdin
+//!   (separated by ';') and prints "ok", else "locked" / "err:<class>".
+//! `c13 --lockagent FILE` — stdin commands `l` / `u` / `q`, one answer line each.
 //! Every op runs under catch_unwind: a panic is the output `PANIC`.
 use std::io::{BufRead, Write};
 use std::os::unix::fs::MetadataExt;
@@ -276,6 +285,34 @@ impl Runner {
                 let _ = std::fs::remove_dir_all(&d);
                 Some(format!("op:{}", r))
             }
+            "selfopen" => {
+                // a second handle on the same root inside the process that already holds one
+                match Manifest::open(options(self.ratio, true), &self.dir) {
+                    Ok(m) => {
+                        drop(m);
+                        Some("self:opened".to_string())
+                    }
+                    Err(e) => Some(format!("self:{}", err_class(&e))),
+                }
+            }
+            "foreign" => {
+                use std::process::{Command, Stdio};
+                let ops: String = t[1..].join(" ").split('/').map(|x| x.trim().to_string()).collect::<Vec<_>>().join("; ");
+                let exe = std::env::current_exe().unwrap();
+                let mut child = Command::new(exe)
+                    .arg("--foreign")
+                    .arg(&self.dir)
+                    .arg(self.ratio.to_string())
+                    .stdin(Stdio::piped())
+                    .stdout(Stdio::piped())
+                    .spawn()
+                    .unwrap();
+                child.stdin.take().unwrap().write_all(format!("{}\n", ops).as_bytes()).unwrap();
+                let out = child.wait_with_output().unwrap();
+                let text = String::from_utf8_lossy(&out.stdout);
+                let last = text.lines().filter(|l| l.starts_with("@@F ")).last().unwrap_or("@@F died").to_string();
+                Some(format!("foreign:{}", &last[4..]))
+            }
             "lockprobe" => {
                 let exe = std::env::current_exe().unwrap();
                 let out = std::process::Command::new(exe).arg("--trylock").arg(&self.dir).output().unwrap();
@@ -284,6 +321,37 @@ impl Runner {
             _ => panic!("bad op {}", t[0]),
         }
     }
+}
+
+/// two real processes, each running `--lockagent FILE`, driven one event at a time
+fn lock_case(lockfile: &Path, events: &str) -> String {
+    use std::io::BufReader;
+    use std::process::{Command, Stdio};
+    let exe = std::env::current_exe().unwrap();
+    let mut agents = vec![];
+    for _ in 0..2 {
+        let mut c = Command::new(&exe).arg("--lockagent").arg(lockfile).stdin(Stdio::piped()).stdout(Stdio::piped()).spawn().unwrap();
+        let sin = c.stdin.take().unwrap();
+        let sout = BufReader::new(c.stdout.take().unwrap());
+        agents.push((c, sin, sout));
+    }
+    let mut res = vec![];
+    for ev in events.split_whitespace() {
+        let p = if ev.starts_with('1') { 1 } else { 0 };
+        let cmd = &ev[1..];
+        let (_, sin, sout) = &mut agents[p];
+        sin.write_all(format!("{}\n", cmd).as_bytes()).unwrap();
+        sin.flush().unwrap();
+        let mut ans = String::new();
+        sout.read_line(&mut ans).unwrap();
+        res.push(ans.trim().to_string());
+    }
+    for (mut c, mut sin, _) in agents {
+        let _ = sin.write_all(b"q\n");
+        drop(sin);
+        let _ = c.wait();
+    }
+    res.join(" ")
 }
 
 fn parse_case(line: &str) -> (u64, Vec<String>) {
@@ -306,6 +374,57 @@ fn main() {
         match Manifest::open(options(2, true), &args[2]) {
             Ok(_) => println!("free"),
             Err(e) => println!("{}", if err_class(&e) == "lock-not-obtained" { "locked".to_string() } else { format!("err:{}", err_class(&e)) }),
+        }
+        return;
+    }
+    if args.len() >= 4 && args[1] == "--foreign" {
+        let dir = PathBuf::from(&args[2]);
+        let ratio: u64 = args[3].parse().unwrap();
+        let mut line = String::new();
+        std::io::stdin().read_line(&mut line).unwrap();
+        match Manifest::open(options(ratio, true), &dir) {
+            Ok(m) => {
+                let scratch = dir.with_extension("fscratch");
+                let mut r = Runner { dir, ratio, keys: all_keys(&line), mani: Some(m), scratch, nscratch: 0 };
+                // the result of every op is reported (an op may fail, e.g. rollover of a manifest
+                // that was never written): "ok <r1>/<r2>/.." with " | " written as ","
+                let mut res = vec![];
+                for op in line.trim().split(';').map(|x| x.trim()).filter(|x| !x.is_empty()) {
+                    res.push(r.op(op).unwrap_or_default().replace(" | ", ","));
+                }
+                println!("@@F ok {}", res.join("/"));
+            }
+            Err(e) => println!("@@F {}", if err_class(&e) == "lock-not-obtained" { "locked".to_string() } else { format!("err:{}", err_class(&e)) }),
+        }
+        return;
+    }
+    if args.len() >= 3 && args[1] == "--lockagent" {
+        let path = PathBuf::from(&args[2]);
+        let mut held: Vec<utilz::lockfile::Lockfile> = vec![];
+        let stdin = std::io::stdin();
+        for line in stdin.lock().lines() {
+            let line = line.unwrap();
+            let ans = match line.trim() {
+                "l" => match utilz::lockfile::Lockfile::lock(&path) {
+                    Ok(Some(l)) => {
+                        held.push(l);
+                        "got".to_string()
+                    }
+                    Ok(None) => "none".to_string(),
+                    Err(e) => format!("err:{:?}", e.kind()),
+                },
+                "u" => match held.pop() {
+                    Some(l) => {
+                        drop(l);
+                        "ok".to_string()
+                    }
+                    None => "nohandle".to_string(),
+                },
+                "q" => break,
+                _ => "bad".to_string(),
+            };
+            println!("{}", ans);
+            let _ = std::io::stdout().flush();
         }
         return;
     }
@@ -337,6 +456,14 @@ fn main() {
         let line = line.unwrap();
         if line.trim().is_empty() {
             writeln!(out, "@@").unwrap();
+            continue;
+        }
+        if let Some(rest) = line.strip_prefix("@lock ") {
+            ncase += 1;
+            let lockfile = base.join(format!("lockcase{}.LOCK", ncase));
+            let res = lock_case(&lockfile, rest);
+            let _ = std::fs::remove_file(&lockfile);
+            writeln!(out, "@@ {}", res).unwrap();
             continue;
         }
         if let Some(rest) = line.strip_prefix("@img ") {
